@@ -11,7 +11,8 @@ import sys
 from pathlib import Path
 
 VERIF = Path(__file__).resolve().parent.parent
-ROOT = Path("/tmp/seedsweep")
+import os
+ROOT = Path(os.environ.get("SEEDSWEEP_ROOT", "/tmp/seedsweep"))   # several sweeps over disjoint seed names may run side by side
 
 
 def sh(cmd, **kw):
@@ -20,7 +21,6 @@ def sh(cmd, **kw):
 
 names = sys.argv[1:] or sorted(p.name for p in (VERIF / "seeded").iterdir() if (p / "patch.diff").exists())
 shutil.rmtree(ROOT, ignore_errors=True)
-sh("git -C /repo worktree prune")
 (ROOT / "verif").mkdir(parents=True)
 assert sh(f"git -C {VERIF} archive HEAD | tar -x -C {ROOT}/verif").returncode == 0
 assert sh(f"git -C /repo worktree add --detach {ROOT}/repo HEAD").returncode == 0
